@@ -351,6 +351,54 @@ def backward_zero_incoming_gradient(n):
     return fn
 
 
+def lanczos_annihilated_vector(n):
+    """The Lanczos loop of double_krylov on a vector the operator annihilates (H|v> = 0 exactly: a delay acting
+    on |g..g>, a free wait with H = 0): the Krylov space is exhausted after one vector and the loop must stop
+    there - before dividing by the zero norm of the next one.  The real loop runs (it reaches no LAPACK kernel
+    on this input); every divisor it meets is recorded and must be non-zero."""
+
+    def fn(env):
+        from symex import poly
+        from symex.env import b_and, b_not
+
+        T = env.torch
+        dk = env.mod("emu_base.math.double_krylov")
+        dim = 2**n
+        v = env.tensor_cplx("v", (dim,))
+        env.assume(scalar(T.linalg.vector_norm(v)) > 0.01, "the vector is not (numerically) zero")
+        v0 = v.clone()
+
+        def op(x):
+            return 0.0 * x
+
+        log = None
+        if env.mode == "sym":
+            poly.DIV_LOG = []
+        try:
+            try:
+                vecs, Tm = dk.lanczos(op, v, 1e-8)
+                raised = None
+            except (RecursionError, ZeroDivisionError) as e:
+                vecs, Tm, raised = None, None, e
+        finally:
+            if env.mode == "sym":
+                log, poly.DIV_LOG = poly.DIV_LOG, None
+        env.check(raised is None, "Lanczos on an annihilated vector stops (it does not raise)")
+        if log is not None:
+            env.check(b_and(True, *[b_not(d == 0) for d in log]), "Lanczos on an annihilated vector never divides by zero")
+        else:
+            env.check(True, "Lanczos on an annihilated vector never divides by zero")
+        if vecs is not None:
+            want_len = 1 if not env.mutant("expects_two_vectors") else 2
+            env.check(len(vecs) == want_len, "the Krylov space of an annihilated vector has dimension 1")
+            if len(vecs) >= 1:
+                nrm = T.linalg.vector_norm(v0)
+                env.check_eq(vecs[0] * nrm, v0, "the first Lanczos vector is v/|v|")
+            env.check_eq(Tm, T.zeros(len(vecs), len(vecs), dtype=T.complex128), "the projected operator is zero")
+
+    return fn
+
+
 COVERS_BACKWARD = [
     ("emu_sv/time_evolution.py", "EvolveStateVector.backward"),
     ("emu_sv/time_evolution.py", "EvolveStateVector.get_hamiltonian"),
@@ -585,6 +633,17 @@ def cases(tier):
                 covers=COVERS_BACKWARD,
                 bounds={"n_qubits": n, "incoming gradient": "exactly zero", "Krylov routines": "stubs that refuse the zero vector (the real ones divide by its norm)"},
                 canaries=["expects_nonzero"],
+                weight=4**n,
+            )
+        )
+    for n in ([1, 2] if quick else [1, 2, 3]):
+        out.append(
+            Case(
+                f"lanczos_annihilated_vector_n{n}",
+                lanczos_annihilated_vector(n),
+                covers=[("emu_base/math/double_krylov.py", "lanczos")],
+                bounds={"n_qubits": n, "operator": "zero on the given vector (H|v> = 0)", "vector": "symbolic, non-zero"},
+                canaries=["expects_two_vectors"],
                 weight=4**n,
             )
         )
